@@ -56,4 +56,6 @@ package jobconfig
 //@        && result0.OwnerReferences[0].Kind == execution.GVKJobConfig.Kind && result0.OwnerReferences[0].Name == jobConfig.Name && result0.OwnerReferences[0].UID == jobConfig.UID
 //@   ensures [C02,C13,C16] has-delete-dependents-finalizer: result1 == nil ==> len(result0.Finalizers) == 1 && result0.Finalizers[0] == executiongroup.DeleteDependentsFinalizer
 //@   ensures [C02] type-recorded: result1 == nil ==> result0.Spec.Type == jobType && fresh(result0)
+//@   ensures [C16] template-is-a-copy-of-the-jobconfigs: result1 == nil ==> result0.Spec.Template != nil && fresh(result0.Spec.Template)
+//@        && result0.Spec.Template.MaxAttempts == jobConfig.Spec.Template.Spec.MaxAttempts && result0.Spec.Template.Parallelism == jobConfig.Spec.Template.Spec.Parallelism
 //@   ensures [C02] jobconfig-untouched: *jobConfig == old(*jobConfig)
